@@ -297,6 +297,16 @@ class C16(F.PropCheck):
                         if t == 6 and match: pre += [('SEG', [], publish(b'q/2', b'x', qos=2, pid=pid_)), T]
                         body = (struct.pack('>H', pid_ if match else pid_ + 1) + b'\x00\x00\x00')[:rl] if t != 2 else b'\x00\x00\x00\x00\x00'[:rl]
                         cases.append(F.Case('acklen_t%d_rl%d_m%d_f%d' % (t, rl, match, len(follow)), [S] + pre + [('SEG', [], pkt(t, REQ_FLAGS[t], body) + follow), T], ['ack-lengths']))
+        # long sessions: many QoS 1 publishes (and QoS 2 exchanges) over many segments with ticks: the queue must drain
+        for name, per in (('q1', 10), ('q1b', 3)):
+            evs = [S, ('SEG', [], connack())]
+            for j in range(0, 130, per):
+                evs.append(('SEG', [], b''.join(publish(b'l', b'', qos=1, pid=1000 + i) for i in range(j, j + per)))); evs.append(T)
+            cases.append(F.Case('longsession_%s' % name, evs, ['long-session']))
+        evs = [S, ('SEG', [], connack())]
+        for j in range(60):
+            evs += [('SEG', [], publish(b'l2', b'x', qos=2, pid=2000 + j)), T, ('SEG', [], pubxxx(6, 2000 + j)), T]
+        cases.append(F.Case('longsession_q2', evs, ['long-session']))
         # non-minimal remaining-length encodings (2, 3, 4 bytes for a small packet) and a fifth length byte
         for nb in (1, 2, 3, 4, 5):
             for q in (0, 1):
